@@ -9,9 +9,11 @@ set_option linter.unusedSectionVars false
 section
 variable {K : Type} [Zero K] [Add K] [Mul K] [LinearOrder K]
 
+omit [Zero K] [Add K] [Mul K] in
 theorem maxIdxLoop_eq (vals : List (Ext K)) (m : Nat) (js : List Nat) :
     maxIdxLoop vals m js = firstMax (fun j => vals.getD j default) m js := rfl
 
+omit [Zero K] [Add K] [Mul K] in
 /-- first-maximum property of `maxIdxLoop` over `range(lo+1, hi)` started at `lo` -/
 theorem maxIdxLoop_spec (vals : List (Ext K)) (lo hi : Nat) (h : lo < hi) :
     let m := maxIdxLoop vals lo (List.range' (lo + 1) (hi - (lo + 1)))
